@@ -94,7 +94,7 @@ class C14:
     @staticmethod
     def generate(S, tier):
         P = _p(); Q = _q(); rng = S.rng
-        stats = {"flows": 0, "subsets": 0, "field_edits": 0, "mismatches": 0}
+        stats = {"flows": 0, "subsets": 0, "field_edits": 0, "mismatches": 0, "premise_checks": 0, "draws_seen": 0}
         for suite, fx in Q.suites_for(tier):
             ns = ([1, 2, 3] if tier == "quick" else [1, 2, 3, 4, 5]) if suite == "toy" else [2]
             for n in ns:
@@ -108,6 +108,15 @@ class C14:
                         f = issue(S, x, msgs, U, trusted, label="issue")
                         if f is None: continue
                         stats["flows"] += 1; stats["subsets"] += 1
+                        # premises of C14_zkpok_complete / C14_blind_issuance_valid checked on this run: logged random_bits
+                        # values >= 0, invertible bases, and Euler's relation x^phi = 1 for the key pair (good_key)
+                        bad = [d for d in f["zk_draws"] if d[0] == "bits" and d[2] < 0]
+                        p_, q_ = x.sk; phi = (p_ - 1) * (q_ - 1)
+                        units = all(math.gcd(b % N, N) == 1 for b in list(x.bases) + [x.pk[1], x.pk[2]])
+                        euler = p_ * q_ == N and all(pow(b, phi, N) == 1 for b in list(x.bases) + [x.pk[1], x.pk[2]])
+                        stats["premise_checks"] += 1; stats["draws_seen"] += len(f["zk_draws"])
+                        if bad or not units or not euler:
+                            P.fail(S, "theorem-premise|zkpok_complete/blind_issuance_valid", "a premise of the issuance theorems does not hold on this run (negative random_bits draw %s, units %s, euler %s)" % (bad[:1], units, euler), [zkgen_line(x, f)])
                         S.run([zkver_line(x, f)], expect=true_, label="verify_proof(generate_proof)")
                         rb = S.run([blindsign_line(x, f)], expect="ok", label="blind_sign")[0]
                         if rb.status != "OK": continue
